@@ -169,7 +169,6 @@ async def worker_serve(
 
         for server in servers:
             server.close()
-            await server.wait_closed()
 
         try:
             gathered_server_tasks = asyncio.gather(*server_tasks)
@@ -180,6 +179,12 @@ async def worker_serve(
             # Retrieve the Gathered Tasks Cancelled Exception, to
             # prevent a warning that this hasn't been done.
             gathered_server_tasks.exception()
+
+            # From Python 3.12 wait_closed waits for every connection
+            # to be closed, it must therefore come after the graceful
+            # wait (and cancellation) rather than before it.
+            for server in servers:
+                await server.wait_closed()
 
             await lifespan.wait_for_shutdown()
             lifespan_task.cancel()
